@@ -20,7 +20,7 @@ def state_view(st):
     return world.canon({k: st[k] for k in STATE_KEYS})
 
 
-OUTPUT_KEYS = ('exit', 'ocs', 'listing', 'lines', 'diag', 'printed', 'undef')
+OUTPUT_KEYS = ('exit', 'ocs', 'listing', 'lines', 'diag', 'printed', 'printedDev', 'undef')
 
 
 def op_key(lab):
@@ -53,9 +53,12 @@ def out_matches(cmd, obs, lab):
     """-> list of differences between the observed outputs and the label's outputs"""
     diffs = []
     want_exit = lab.get('exit', 'ok')
-    if want_exit != 'any' and obs['exit'] != want_exit:
+    # an uncaught exception ends the process with a non-zero status: as an exit status it is a failure
+    # (what it prevented from happening shows in the state and the outputs)
+    got_exit = 'fail' if obs['exit'] == 'crash' else obs['exit']
+    if want_exit != 'any' and got_exit != want_exit:
         diffs.append('exit: observed %s, specification %s' % (obs['exit'], want_exit))
-    if want_exit == 'any' and obs['exit'] not in ('ok', 'fail'):
+    if want_exit == 'any' and obs['exit'] not in ('ok', 'fail', 'crash'):
         diffs.append('exit: observed %s' % obs['exit'])
     if cmd == 'list':
         if bag(obs['lines']) != bag(lab['lines']):
@@ -72,8 +75,12 @@ def out_matches(cmd, obs, lab):
     elif cmd == 'empty':
         a = sorted(json.dumps(x, sort_keys=True) for x in obs['printed'])
         b = sorted(json.dumps(x, sort_keys=True) for x in lab['printed'])
+        bdev = sorted(json.dumps(x, sort_keys=True) for x in lab.get('printedDev', lab['printed']))
         if a != b:
-            diffs.append('dry-run output: observed %s, specification %s' % (a, b))
+            if a == bdev:
+                diffs.append('known-deviation dry-run-prints-absent-payload: observed %s, specification %s' % (a, b))
+            else:
+                diffs.append('dry-run output: observed %s, specification %s' % (a, b))
         if lab['opts']['dry'] and obs['unparsed']:
             diffs.append('unparsed dry-run output: %r' % obs['unparsed'][:3])
     return diffs
